@@ -381,9 +381,21 @@ def pdf_money(s):
     return s.replace("\n", "")
 
 
+PDF_ANCHORS = ("Taxable gain\n", "Disposal Details\n", "Gross Proceeds:\n", "Cost:\n", "Result:\n")
+
+
 def check_pdf(runs, rep, txs, cnt, viols):
     ck = Checker("pdf", cnt, viols)
     text = "\n".join(runs)
+    # The PDF's wording and layout are pinned by no property (and by no test): this reader knows the current template's
+    # section titles and labels. If a document with disposals lacks one of them *altogether*, the reader - not the tool -
+    # is out of date: that is inconclusive (the figure thresholds then fail the run with exit 2), never a violation.
+    # A label that is present elsewhere in the document but missing for one disposal is still judged below.
+    if any(y["disposals"] for y in rep["years"]):
+        missing = [a.strip() for a in PDF_ANCHORS if a not in text]
+        if missing:
+            cnt["pdf_layout_not_recognised(inconclusive)"] += 1
+            return
     # summary table
     body = text.split("Taxable gain\n", 1)[-1].split("Notes:", 1)[0] if rep["years"] else ""
     rows = re.findall(r"(\d{4}/\d{2})\n(\d+)\n(" + M + r")\n(" + M + r")\n(" + M + r")\n(" + M + r")\n(" + M + r")\n(" + M + r")", body)
